@@ -13,7 +13,11 @@ import (
 	"golang.org/x/tools/go/ssa"
 )
 
+const spinYieldAfter = 48
+
 type thread struct {
+	lastRun  int
+	streak   int
 	id       int
 	wake     chan struct{}
 	done     bool
@@ -84,6 +88,7 @@ type scheduler struct {
 	timers      []*vtimer
 	pending     interface{} // abort raised on a non-main thread
 	nchan       int
+	switches    int
 	sched       []int64 // schedule choices taken (informational)
 	multi       bool    // more than one thread has existed on this path
 	shadow      map[*value]*shadowCell
@@ -250,6 +255,7 @@ func (s *scheduler) switchTo(t *thread) {
 	if t == me {
 		return
 	}
+	s.switches++
 	s.cur = t
 	t.wake <- struct{}{}
 	s.park(me)
@@ -275,6 +281,32 @@ func (m *Machine) schedPoint(what string) {
 		return
 	}
 	me := s.cur
+	// fairness for spin-waits: a thread that has gone through many
+	// synchronisation operations in a row while others are runnable offers the
+	// processor (a fair scheduler would have pre-empted it); without this a
+	// busy-wait loop never lets the thread it waits for run once the
+	// pre-emption budget is spent
+	if me.lastRun == s.switches {
+		me.streak++
+	} else {
+		me.lastRun, me.streak = s.switches, 0
+	}
+	if me.streak >= spinYieldAfter {
+		me.streak = 0
+		// must hand over to another runnable thread (not to itself)
+		var others []*thread
+		for _, t := range s.enabled() {
+			if t != me {
+				others = append(others, t)
+			}
+		}
+		if len(others) > 0 {
+			c := m.Choose(len(others))
+			s.sched = append(s.sched, int64(c))
+			s.switchTo(others[c])
+			return
+		}
+	}
 	for {
 		var others []*thread
 		for _, t := range s.enabled() {
@@ -342,6 +374,7 @@ func (s *scheduler) pickNext(me *thread) {
 			if t == me {
 				return
 			}
+			s.switches++
 			s.cur = t
 			t.wake <- struct{}{}
 			if me != nil && !me.done {
